@@ -381,10 +381,21 @@ pub(crate) fn floattable(text: &str) -> Sx {
 pub(crate) fn floattable_words(text: &str) -> Sx {
     let mut seen = std::collections::HashSet::<&str>::new();
     let mut out = vec![];
+    let numberlike = |w: &str| {
+        w.bytes()
+            .next()
+            .map(|c| c.is_ascii_digit() || c == b'+' || c == b'-' || c == b'.')
+            .unwrap_or(false)
+    };
     for w in text.split_ascii_whitespace() {
-        let Some(c) = w.bytes().next() else { continue };
-        if (c.is_ascii_digit() || c == b'+' || c == b'-' || c == b'.') && seen.insert(w) {
+        if numberlike(w) && seen.insert(w) {
             out.push(floatentry(w));
+        }
+        // a number token may end in front of, or start behind, a comment or a string that is not set off by a blank
+        for piece in w.split(|ch: char| !(ch.is_ascii_alphanumeric() || ch == '.' || ch == '+' || ch == '-' || ch == '_')) {
+            if numberlike(piece) && seen.insert(piece) {
+                out.push(floatentry(piece));
+            }
         }
     }
     Sx::L(out)
